@@ -1,6 +1,7 @@
 package main
 
 import (
+	"crypto/sha1"
 	"fmt"
 	"strings"
 
@@ -20,6 +21,7 @@ type engineMon struct {
 	aloneAt   int   // deck position when only one player was left (-1 = n/a)
 	lastRaise int64 // ghost: size of the last bet or full raise of the round (the big blind before any)
 	lastBoard int
+	seen      map[[20]byte]int // C06: states of this hand after each accepted operation -> index of that operation
 }
 
 var roundIdx = map[string]int{"": 0, "preflop": 1, "flop": 2, "turn": 3, "river": 4}
@@ -53,6 +55,39 @@ func (m *engineMon) afterStartError(err error) {
 	if len(c.bank) >= 2 && dealer && okBank && len(c.deck) > 0 {
 		m.h.o.Violate("C06", "start_iff", "Start() refused a configuration with two players, positive bankrolls, a dealer and a deck: "+err.Error())
 	}
+}
+
+// muOf: the termination measure of theorem C06.measure_decreases (Proofs/FlowMeasure.lean, Game.mu)
+func muOf(gs *pokerface.GameState) int64 {
+	n := int64(len(gs.Players))
+	var stacks, unacted int64
+	for _, p := range gs.Players {
+		stacks += p.StackSize
+		if !p.Acted {
+			unacted++
+		}
+	}
+	left := int64(4 - roundIdx[gs.Status.Round])
+	var phase int64
+	switch gs.Status.CurrentEvent {
+	case "GameClosed":
+		phase = 0
+	case "RoundClosed":
+		phase = 1 + left*(n+2)
+	case "RoundStarted":
+		phase = 1 + left*(n+2) + unacted
+	case "ReadyRequested":
+		if gs.Status.Round == "" {
+			phase = 4*(n+2) + 4
+		} else {
+			phase = left*(n+2) + n + 2
+		}
+	case "BlindsRequested":
+		phase = 4*(n+2) + 2
+	case "AnteRequested":
+		phase = 4*(n+2) + 3
+	}
+	return n*stacks + phase
 }
 
 func has(xs []string, a string) bool {
@@ -176,6 +211,41 @@ func (m *engineMon) afterOp(opLine string, pre *pokerface.GameState, err error) 
 			checkSettlement(o, es, tchanged)
 			o.Count("engine.closed_twin")
 		}
+		// the same showdown with the hands ranked from the cards (hole cards + board, rules of poker,
+		// spec oracle of eval.go) instead of the strengths the engine stored: theorems Links.showdown_winners_by_poker, showdown_winners_by_poker_shortDeck
+		if alive(gs) >= 2 && len(st.Board) == 5 {
+			keys := map[int]specKey{}
+			okAll := true
+			for _, p := range gs.Players {
+				if p.Fold {
+					continue
+				}
+				k, ok := bestSpec(c.table, c.req, p.HoleCards, st.Board)
+				if !ok {
+					okAll = false
+					break
+				}
+				keys[p.Idx] = k
+			}
+			if okAll {
+				tbl := tableByName(c.table)
+				es2 := []entry{}
+				for _, p := range gs.Players {
+					sc := int64(0)
+					if !p.Fold {
+						sc = 1
+						for _, q := range gs.Players {
+							if !q.Fold && specCompare(tbl, keys[q.Idx], keys[p.Idx]) < 0 {
+								sc++
+							}
+						}
+					}
+					es2 = append(es2, entry{idx: p.Idx, contrib: p.Pot + p.Wager, fold: p.Fold, score: sc})
+				}
+				checkSettlementAs(o, "by_cards.", es2, changed)
+				o.Count("engine.showdowns_by_cards")
+			}
+		}
 		o.Count("engine.closed")
 		if alive(gs) >= 2 {
 			o.Count("engine.showdowns")
@@ -223,6 +293,21 @@ func (m *engineMon) afterOp(opLine string, pre *pokerface.GameState, err error) 
 		}
 		if err == nil {
 			m.accepted++
+			// a state that comes back after an accepted operation is a cycle of the state graph:
+			// repeating the operations in between is a play that never closes (theorem measure_decreases
+			// excludes it for the model: every accepted operation strictly lowers Game.mu)
+			if m.seen == nil {
+				m.seen = map[[20]byte]int{}
+			}
+			key := sha1.Sum([]byte(canonJSON(gs)))
+			if k, dup := m.seen[key]; dup {
+				m.V("C06", "terminates_no_cycle", fmt.Sprintf("after %s (accepted operation %d) the hand is in exactly the state it was in after accepted operation %d: repeating the operations in between never reaches the closed state", opLine, m.accepted, k))
+			} else {
+				m.seen[key] = m.accepted
+			}
+			if mu0, mu1 := muOf(pre), muOf(gs); mu1 >= mu0 {
+				o.Count("engine.mu_not_decreasing")
+			}
 			if m.accepted > m.bound {
 				m.V("C06", "terminates", fmt.Sprintf("%d accepted operations, bound for this hand is %d", m.accepted, m.bound))
 			}
